@@ -134,7 +134,7 @@ def _apply(op: int, root: Node) -> None:
 NOPS = 14
 
 
-ALPHA = "a1 <>&\"'\u00e9\t\n"
+ALPHA = "a <>&\"'" if FLD >= 2 else "a1 <>&\"'\u00e9\t\n"      # attribute-like fields: no TAB/LF (quoteattr's extra replaces)
 
 
 def in_alpha(s: str) -> bool:
